@@ -17,13 +17,14 @@ TProduce == /\ More /\ TEv.e = "route" /\ Produce
                ELSE /\ TEv.r = "external" /\ l + 1 <= Len(TLog) /\ TLog[l + 1].e = "upload"
                     /\ TLog[l + 1].enc = c.comp /\ Adv(2)
 TTamper == More /\ TEv.e = "tamper" /\ TEv.cor = c.cor /\ TEv.psha = c.psha /\ Tamper /\ Adv(1)
-TLogEv == More /\ TEv.e = "log" /\ pc = "walk" /\ todo # <<>> /\ Head(todo) = "L" /\ Walk /\ Adv(1)
+TLogEv == /\ More /\ TEv.e = "log" /\ pc = "walk" /\ todo # <<>> /\ Head(todo) \in {"L", "F"}
+          /\ TEv.forged = (Head(todo) = "F") /\ Walk /\ Adv(1)
 \* batches that are neither log nor pointer are walked silently
-TWalkData == pc = "walk" /\ todo # <<>> /\ Head(todo) \notin {"L", "P"} /\ Walk /\ UNCHANGED <<tid, l>>
+TWalkData == pc = "walk" /\ todo # <<>> /\ Head(todo) \notin {"L", "F", "E", "P"} /\ Walk /\ UNCHANGED <<tid, l>>
 TFetchOk == pc = "fetch" /\ ShaOk /\ store.bytes # "damaged" /\ Fetch /\ pc' = "walk" /\ UNCHANGED <<tid, l>>
 TReject == /\ More /\ TEv.e = "reject"
            /\ \/ (pc = "fetch" /\ Fetch)
-              \/ (pc = "walk" /\ todo # <<>> /\ Head(todo) = "P" /\ Walk)
+              \/ (pc = "walk" /\ todo # <<>> /\ Head(todo) \in {"P", "E"} /\ Walk)
               \/ Finish
            /\ pc' = "done" /\ Last(log').e = "reject" /\ Last(log').why = TEv.why
            /\ Adv(1)
